@@ -38,6 +38,22 @@ fn has_pct_triple(b: &[u8]) -> bool {
 
 const HOT: &[u8] = b"&<>\"'%;#x27amplgtquo \n\t\\/:?=";
 
+/// Entity- and escape-shaped fragments: outputs of the escapers themselves, their prefixes and
+/// neighbours. An escaper that looks ahead (instead of acting byte by byte) shows on these.
+const FRAGS: &[&str] = &[
+    "&amp;", "&quot;", "&lt;", "&gt;", "&#x27;", "&#39;", "&apos;", "&", "amp;", "&am", "p;", ";", "#", "#x27;", "x27", "%", "%2",
+    "%25", "%41", "%zz", "'", "\"", "<", ">", "a", " ", "\u{e9}", "&&", "&#", "&a", "&amp", "&amp;amp;", "lt;", "gt;", "quot;",
+];
+
+fn gen_frags(r: &mut Rng, maxn: usize) -> Vec<u8> {
+    let n = r.range(1, maxn);
+    let mut s = String::new();
+    for _ in 0..n {
+        s.push_str(r.ps(FRAGS));
+    }
+    s.into_bytes()
+}
+
 fn gen_bytes(r: &mut Rng, maxlen: usize) -> Vec<u8> {
     let n = r.range(0, maxlen);
     let mode = r.below(4);
@@ -227,11 +243,26 @@ pub fn run(cfg: &Cfg, rep: &mut Report) {
     rep.exhaustive_what.push("all 65793 byte strings of length <= 2, both escapers, bytes + oracles".into());
     bt.run(&m, rep);
 
+    // 1b. exhaustive over all sequences of <= 2 fragments, and all splits of each for the homomorphism
+    let mut bt = Batch::new();
+    for f1 in FRAGS {
+        for f2 in FRAGS.iter().chain(std::iter::once(&"")) {
+            let a = format!("{}{}", f1, f2).into_bytes();
+            for cut in 0..=a.len() {
+                push_concat_case(rep, &a[..cut], &a[cut..]);
+            }
+            rep.count("fragment-pairs");
+            push_bytes_case(&mut bt, rep, a);
+        }
+    }
+    rep.exhaustive_what.push(format!("all sequences of <= 2 of {} entity/escape-shaped fragments, every split point", FRAGS.len()));
+    bt.run(&m, rep);
+
     // 2. random longer strings
     let n = if cfg.tier_thorough { 300_000 } else if cfg.full { 60_000 } else { 12_000 };
     let mut bt = Batch::new();
     for i in 0..n {
-        let a = gen_bytes(&mut rng, 64);
+        let a = if i % 3 == 0 { gen_frags(&mut rng, 8) } else { gen_bytes(&mut rng, 64) };
         if i < 4 {
             rep.sample(format!("bytes {}", show(&a)));
         }
@@ -254,7 +285,17 @@ pub fn run(cfg: &Cfg, rep: &mut Report) {
     for i in 0..n {
         let tag = gen_name(&mut rng);
         let k = rng.range(0, 4);
-        let attrs: Vec<(String, String)> = (0..k).map(|_| (gen_name(&mut rng), gen_str(&mut rng, 24))).collect();
+        let attrs: Vec<(String, String)> = (0..k)
+            .map(|_| {
+                let v = match rng.below(4) {
+                    // values with exactly one kind of special character (a fast path that checks only some of them shows here)
+                    0 => format!("x{}y", rng.ps(&["\"", "&", "<", ">", "'", "\"\"", "\" on=\"z"])),
+                    1 => String::from_utf8_lossy(&gen_frags(&mut rng, 4)).into_owned(),
+                    _ => gen_str(&mut rng, 24),
+                };
+                (gen_name(&mut rng), v)
+            })
+            .collect();
         if i < 3 {
             rep.sample(format!("tag {} {:?}", tag, attrs));
         }
